@@ -567,7 +567,7 @@ def make_machine(rec, Failure, tier, sub):
 class Histories(SubCheck):
     name = "histories"
     stateful = True
-    budget = {"quick": 32, "thorough": 1600}      # histories
+    budget = {"quick": 32, "thorough": 800}       # histories (measured: 40-75 s per history and shard)
     step_count = {"quick": 10, "thorough": 16}
     weight = 4.0
 
